@@ -235,3 +235,101 @@ Proof.
   split; [exact H1|]. split; [rewrite H2; f_equal; symmetry; eapply obs_close_length; exact H3|].
   exists (lin_ticks_at base eb mn mx false (lv_level lv)). split; [now apply lin_level_list_at|]. auto.
 Qed.
+
+(* ---------- Nice ---------- *)
+(* the rounded-out tick count Nice searches with: ceil((max - slack)/spacing) - floor((min + slack)/spacing) + 1 *)
+Definition lin_out_count (base eb : Z) (mn mx : Q) (l : Z) : Z :=
+  let sp := lin_spacing base eb l in let sl := (mx - mn) * slack_factor in
+  (Qceiling ((mx - sl) / sp) - Qfloor ((mn + sl) / sp) + 1)%Z.
+Lemma lin_count_out_eq base eb mn mx l : lin_count base eb mn mx true l = lin_out_count base eb mn mx l.
+Proof. unfold lin_count, lin_out_count. rewrite first_last_out. reflexivity. Qed.
+
+(* "Nice's level": THE lowest level of the window whose rounded-out count is at most Max *)
+Definition lin_nice_level (base eb : Z) (o : tickopts) (smn smx : Q) (l : Z) : Prop :=
+  exists lo hi, level_bounds o = Some (lo, hi) /\ (1 <= o_max o)%Z /\ (lo <= l <= hi)%Z /\
+    (lin_out_count base eb smn smx l <= o_max o)%Z /\
+    forall l', (lo <= l' < l)%Z -> (o_max o < lin_out_count base eb smn smx l')%Z.
+
+Lemma lin_nice_level_iff base eb o smn smx l g : lin_ebase base = Some eb -> smn < smx ->
+  (find_level o (lin_count base eb smn smx true) g = FL_ok l <-> lin_nice_level base eb o smn smx l).
+Proof.
+  intros He Lt. split.
+  - intro F. destruct (level_bounds o) as [[lo hi]|] eqn:Hb; [|unfold find_level in F; rewrite Hb in F; discriminate].
+    assert (Hm : (1 <= o_max o)%Z).
+    { destruct (Z_lt_ge_dec (o_max o) 1) as [L|L]; [|lia]. unfold find_level in F. rewrite Hb in F.
+      apply Z.ltb_lt in L. rewrite L in F. discriminate. }
+    destruct (find_level_lowest o _ g lo hi l Hb (lin_count_out_nonincreasing base eb He smn smx lo hi Lt) F) as (B & Fit & Low).
+    exists lo, hi. rewrite <- lin_count_out_eq. repeat split; try tauto; try lia.
+    intros l' Hl'. rewrite <- lin_count_out_eq. now apply Low.
+  - intros (lo & hi & Hb & Hm & Hl & Fit & Low).
+    apply (find_level_is_lowest o _ g lo hi l Hb (lin_count_out_nonincreasing base eb He smn smx lo hi Lt) Hm Hl).
+    + now rewrite lin_count_out_eq.
+    + intros l' Hl'. rewrite lin_count_out_eq. now apply Low.
+Qed.
+Lemma lin_search_out_eq o base eb smn smx : lin_ebase base = Some eb ->
+  lin_search o base eb smn smx true = find_level o (lin_count base eb smn smx true) 0.
+Proof.
+  intro He. unfold lin_search. apply find_level_ext. intro l. apply lin_count_capped_eq. now destruct (lin_ebase_ge base eb He).
+Qed.
+
+(* Nice(o) on the domain [mn, mx] (any order; a degenerate one is first widened by 1/2 each side): the
+   observed new ends are finite and within tolerance of values x, y that do not shrink the
+   (ordered/widened) domain [smn, smx], move each end by less than one spacing of Nice's level onto
+   a multiple of it (or leave it), and leave the domain alone when no level fits *)
+Definition lin_nice_spec (tolv : Q -> Q) (base eb : Z) (o : tickopts) (mn mx : Q) (st : Z) (a b : xreal) : Prop :=
+  st = 0%Z /\ exists ao bo x y, a = XFin ao /\ b = XFin bo /\ Qabs (ao - x) <= tolv x /\ Qabs (bo - y) <= tolv y /\
+  let smn := fst (lin_start mn mx) in let smx := snd (lin_start mn mx) in
+  smn < smx /\ x <= smn /\ smx <= y /\
+  (forall l, lin_nice_level base eb o smn smx l ->
+     let sp := lin_spacing base eb l in
+     smn - x < sp /\ y - smx < sp /\
+     (x == smn \/ exists k : Z, x = inject_Z k * sp) /\ (y == smx \/ exists k : Z, y = inject_Z k * sp)) /\
+  ((forall l, ~ lin_nice_level base eb o smn smx l) -> x == smn /\ y == smx).
+
+Theorem lin_nice_E_sound tolv o base eb mn mx st a b : lin_ebase base = Some eb ->
+  lin_nice_E tolv o base eb mn mx st a b = true -> lin_nice_spec tolv base eb o mn mx st a b.
+Proof.
+  intros He H. unfold lin_nice_E in H. destruct (lin_nice_xy o base eb mn mx) as [x y] eqn:Exy. cbn [fst snd] in H.
+  apply andb_prop in H. destruct H as [H H3]. apply andb_prop in H. destruct H as [H1 H2]. apply Z.eqb_eq in H1.
+  apply xwithin_fin in H2, H3. destruct H2 as (ao & -> & Ha). destruct H3 as (bo & -> & Hb).
+  split; [exact H1|]. exists ao, bo, x, y. split; [reflexivity|]. split; [reflexivity|]. split; [exact Ha|]. split; [exact Hb|].
+  unfold lin_nice_xy, lin_rn in Exy. destruct (lin_start mn mx) as [na nb] eqn:Es. cbn [fst snd] in *. cbv zeta.
+  pose proof (lin_nice_from_eq base eb mn mx o na nb He Es) as N. rewrite Exy in N.
+  pose proof (lin_nice_expands base mn mx o 0 x y N) as Ex.
+  pose proof (nice_start_ordered mn mx) as Ord.
+  pose proof (lin_nice_adds_less_than_one_spacing base eb mn mx o 0 x y He N) as Ad.
+  change (nice_start mn mx) with (lin_start mn mx) in Ex, Ord, Ad. rewrite Es in Ex, Ord, Ad. cbv zeta in Ad.
+  split; [exact Ord|]. split; [tauto|]. split; [tauto|]. split.
+  - intros l Hl. apply (lin_nice_level_iff base eb o na nb l 0 He Ord) in Hl.
+    assert (P : 0 < lin_spacing base eb l) by (apply lin_spacing_pos; now destruct (lin_ebase_ge base eb He)).
+    destruct Ad as [[E1 E2]|(l' & F & A1 & A2 & A3 & A4)].
+    + repeat split; try lra; now left.
+    + rewrite Hl in F. injection F as <-. auto.
+  - intro No. destruct Ad as [Ad|(l' & F & _)]; [exact Ad|]. exfalso.
+    apply (lin_nice_level_iff base eb o na nb l' 0 He Ord) in F. exact (No l' F).
+Qed.
+
+(* Nice found a level exactly when a Nice level exists *)
+Lemma lin_found_iff o base eb mn mx : lin_ebase base = Some eb ->
+  (is_found (lin_rn o base eb mn mx) = true <-> exists l, lin_nice_level base eb o (fst (lin_start mn mx)) (snd (lin_start mn mx)) l).
+Proof.
+  intro He. unfold lin_rn. pose proof (nice_start_ordered mn mx) as Ord. change (nice_start mn mx) with (lin_start mn mx) in Ord.
+  destruct (lin_start mn mx) as [na nb]. cbn [fst snd]. rewrite (lin_search_out_eq o base eb na nb He). split.
+  - destruct (find_level o (lin_count base eb na nb true) 0) as [l| |] eqn:F; try discriminate. intros _. exists l.
+    now apply (lin_nice_level_iff base eb o na nb l 0 He Ord).
+  - intros (l & Hl). apply (lin_nice_level_iff base eb o na nb l 0 He Ord) in Hl. now rewrite Hl.
+Qed.
+
+(* 45 *)
+Lemma lin_law45_sound tolv nomax found na nb ao bo major3 : lin_law45 tolv nomax found na nb ao bo major3 = true ->
+  (3 <= nomax)%Z -> found = true ->
+  exists t0 t1 rest u1 u0 rest', major3 = XFin t0 :: XFin t1 :: rest /\ rev major3 = XFin u1 :: XFin u0 :: rest' /\
+    na - ao <= t1 - t0 + tolv ao /\ bo - nb <= u1 - u0 + tolv bo.
+Proof.
+  unfold lin_law45. intros H Hm ->. apply Bool.orb_true_iff in H. destruct H as [H|H].
+  { apply Bool.orb_true_iff in H. destruct H as [H|H]; [apply Z.ltb_lt in H; lia | discriminate]. }
+  unfold first_two, last_two in H. destruct major3 as [|[| |t0] [|[| |t1] rest]]; try discriminate.
+  destruct (rev (XFin t0 :: XFin t1 :: rest)) as [|[| |u1] [|[| |u0] rest']]; try discriminate.
+  apply andb_prop in H. destruct H as [H1 H2]. apply Qleb_true in H1, H2.
+  exists t0, t1, rest, u1, u0, rest'. auto.
+Qed.
